@@ -4,6 +4,7 @@ package server
 
 import (
 	"fmt"
+	"regexp"
 	"strconv"
 	"strings"
 	"time"
@@ -161,6 +162,7 @@ type Op struct {
 	Reply    rv
 	ConnGen  int
 	Lost     bool // connection died before a reply
+	Applied  int  // scripts: how many of Cmd.Inner were found in the log
 	NodeName string
 }
 
@@ -302,7 +304,19 @@ func (a *Actor) issue() {
 	a.end.Write(b)
 }
 
+var volatileRe = regexp.MustCompile(`\\?"group\\?":\\?"[0-9a-f]{24}\\?"`)
+
+// maskVolatile hides values tile38 draws from process-global randomness
+// (group ids) so that event logs are comparable between executions.
+func maskVolatile(s string) string {
+	if !strings.Contains(s, "group") {
+		return s
+	}
+	return volatileRe.ReplaceAllString(s, `"group":"G"`)
+}
+
 func clipStr(s string, n int) string {
+	s = maskVolatile(s)
 	if len(s) > n {
 		return s[:n] + fmt.Sprintf("...(%d)", len(s))
 	}
